@@ -10,6 +10,7 @@ EXPLANATION = (
     "is the index of the node owning that end gate; (R3) filter_nodes/filter_edges keep node ids and edge targets consistent (edges to "
     "removed nodes are dropped, remaining targets remapped). "
     '(R2 also: a spanned module is registered as a node before its gates are walked, and bidirectional construction adds both directions for every edge.) '
+    '(R4) the global edge iterator steps its source index exactly when it moves on by one edge bundle. '
     "Decides these necessary conditions only; not graph-query correctness in general.")
 ASSUMPTIONS = ["a gate chain starting at an endpoint gate is a finite path (C08.R4: at most two peers per gate)"]
 
